@@ -105,3 +105,25 @@ Lemma retriable_spec_examples :
   retriable_spec 1006%N = false /\ retriable_spec 65535%N = false /\ retriable_spec 7%N = true /\
   retriable_spec 9%N = false /\ retriable_spec 3%N = true /\ retriable_spec 1%N = false.
 Proof. vm_compute. repeat split; reflexivity. Qed.
+
+(* batchMessages observes w.closed on EVERY call, in every state (used writer or not): a call
+   that reaches it after Close fails with ErrClosedPipe and nothing else changes *)
+Lemma late_assign_always_rejected : forall cfg s c cl,
+  closed s = true -> nth_error (s_calls s) c = Some cl -> c_ph cl = CEntered ->
+  step cfg s (Assign c) = Some (ret_call s c cl (RErr EClosed)).
+Proof. intros cfg s c cl Hc Hn Hp. unfold step. rewrite Hn, Hp, Hc. reflexivity. Qed.
+
+(* the transport NewWriter builds authenticates exactly when the dialer has a SASL mechanism,
+   whether or not TLS is configured *)
+Lemma transport_of_writer_config_sasl : forall d idle ttl,
+  t_sasl (transport_of_writer_config (Some d) idle ttl) = d_sasl d /\
+  t_tls (transport_of_writer_config (Some d) idle ttl) = d_tls d /\
+  t_clientID (transport_of_writer_config (Some d) idle ttl) = d_clientID d /\
+  t_dial (transport_of_writer_config (Some d) idle ttl) = true /\
+  (0 < t_idleMs (transport_of_writer_config (Some d) idle ttl) \/ idle < 0)%Z /\
+  (0 < t_ttlMs (transport_of_writer_config (Some d) idle ttl) \/ ttl < 0)%Z.
+Proof.
+  intros d idle ttl. unfold transport_of_writer_config; simpl. repeat split.
+  - destruct (Z.eqb idle 0) eqn:E; [left; reflexivity|]. apply Z.eqb_neq in E. lia.
+  - destruct (Z.eqb ttl 0) eqn:E; [left; reflexivity|]. apply Z.eqb_neq in E. lia.
+Qed.
